@@ -790,6 +790,10 @@ class StepResult(Generic[TSimulatorState], metaclass=abc.ABCMeta):
                     seen_qubits.add(q)
                     measured_qubits.append(q)
 
+        # Sampling and every confusion map draw from one generator, also when
+        # the seed is given as an integer.
+        seed = value.parse_random_state(seed)
+
         # Perform whole-system sampling of the measured qubits.
         indexed_sample = self.sample(measured_qubits, repetitions, seed=seed)
 
